@@ -396,6 +396,71 @@ def stale_reference_rule(prog, res):
     res.minimum('methods storing an argument of the element type of their own container', npar, 4)
 
 
+def copy_bound_rule(prog, res, scope=None, rule='copy-bound'):
+    """std::copy / std::copy_n / std::transform / std::fill_n into `Y.begin()` (or a pointer into Y) writes
+    as many elements as the source range has: Y must be known to hold at least that many.  Proof: Y was
+    sized with the source's size (same rendering), or a dominating guard bounds the source's size by
+    Y's; a destination sized by one quantity and filled from a range of another is a violation; anything
+    else is UNDECIDED.  back_inserter / inserter destinations grow and are fine."""
+    import codec as _codec
+    import indexsites as _IS
+    n_ = 0
+    for f in prog.repo_funcs():
+        if scope is not None and f.usr not in scope:
+            continue
+        R = None
+        for c in f.calls():
+            q = c['callee'].get('qname')
+            if c['k'] != 'CallExpr' or q not in ('std::copy', 'std::copy_n', 'std::transform', 'std::move', 'std::copy_backward'):
+                continue
+            args = f.call_args(c)
+            if (q in ('std::copy', 'std::copy_backward') and len(args) != 3) or (q == 'std::move' and len(args) != 3) or (q == 'std::copy_n' and len(args) != 3) or (q == 'std::transform' and len(args) not in (4, 5)):
+                continue
+            R = R or Renderer(f)
+            dst = f.nodes[f.strip(args[2 if q != 'std::transform' else (2 if len(args) == 4 else 3)], 'all')]
+            if dst['k'] == 'CallExpr' and dst.get('callee', {}).get('qname') in ('std::back_inserter', 'std::inserter', 'std::front_inserter'):
+                continue
+            if not (dst['k'] == 'CXXMemberCallExpr' and dst['callee']['name'] == 'begin' and dst.get('obj') is not None):
+                continue      # raw pointers and offsets: judged by the buffer rules
+            n_ += 1
+            Y = R.render(dst['obj'])
+            b = f.nodes[f.strip(args[0], 'all')]
+            if q == 'std::copy_n':
+                src_n = R.render(args[1])
+                src_desc = src_n
+            else:
+                e = f.nodes[f.strip(args[1], 'all')]
+                if not (b['k'] == 'CXXMemberCallExpr' and b['callee']['name'] in ('begin', 'cbegin') and e['k'] == 'CXXMemberCallExpr' and e['callee']['name'] in ('end', 'cend') and
+                        b.get('obj') is not None and e.get('obj') is not None and R.render(b['obj']) == R.render(e['obj'])):
+                    res.undecided(rule, '%s into %s' % (q, Y), f.loc(c['id']), 'the source range is not [X.begin(), X.end()) [shape not read by the rule]', function=f.sig, expr='copy:' + Y)
+                    continue
+                X = R.render(b['obj'])
+                if X == Y:
+                    res.ok(rule, '%s within %s' % (q, Y), f.loc(c['id']), 'source and destination are the same container', function=f.sig, expr='copy:%s@%d' % (Y, c['id']), nontrivial=False)
+                    continue
+                src_n = X + '.size'
+                src_desc = 'all of ' + X
+            # how large is Y?
+            ysz = None
+            yo = f.nodes[f.strip(dst['obj'], 'all')]
+            if yo['k'] == 'DeclRefExpr' and yo['decl'].get('dk') == 'local':
+                sp = _codec.sized_buffer(f, dst['obj'], R)
+                if sp is not None:
+                    ysz = P.show(sp)
+            facts = _IS.facts_at(f, R, c['id'])
+            proven = (ysz is not None and ysz == src_n) or any((l == src_n and op in ('<=', '<', '==') and r in (ysz, Y + '.size')) or
+                                                               (l in (ysz, Y + '.size') and op in ('>=', '>', '==') and r == src_n) for l, op, r, _ in facts)
+            inst = '%s into %s' % (q, Y)
+            if proven:
+                res.ok(rule, inst, f.loc(c['id']), 'destination holds at least %s elements' % src_n, function=f.sig, expr='copy:%s@%d' % (Y, c['id']))
+            elif ysz is not None:
+                res.viol(rule, inst, f.loc(c['id']), '%s (%s elements) is copied into %s, which was sized with %s elements, and nothing compares the two: a longer source writes past the end of %s' %
+                         (src_desc, src_n, Y, ysz, Y), function=f.sig, expr='copy:' + Y)
+            else:
+                res.undecided(rule, inst, f.loc(c['id']), 'cannot relate the size of %s to %s [no proof found]' % (Y, src_n), function=f.sig, expr='copy:' + Y)
+    res.ok(rule, 'range copies into sized containers screened', 'src/', '%d copy site(s)' % n_, function='', expr='screen', nontrivial=False)
+
+
 def raw_owner_rule(prog, res):
     al = _c08.aliasing_classes(prog)
     for q, c in sorted(prog.classes.items()):
@@ -497,6 +562,7 @@ def run(prog, tier):
     string_width_rule(prog, res)
     dangling_rule(prog, res)
     stale_reference_rule(prog, res)
+    copy_bound_rule(prog, res)
     raw_owner_rule(prog, res)
     reloc_stable_rule(prog, res)
     import indexsites
